@@ -49,9 +49,11 @@ OffsetNamed(nm) ==
       [] nm = "end+1"        -> 1
       [] nm = "end+max"      -> C.max
       [] nm = "end+2max+1"   -> 2 * C.max + 1
-OffsetNames == {"start", "end-1", "end", "end+1", "end+max", "end+2max+1"}
+CONSTANT OffsetNames   \* subset of {"start", "end-1", "end", "end+1", "end+max", "end+2max+1"}
 
-GInit == Init /\ hist = <<>>
+\* (scripts name members relative to the loop's own member; the harness
+\* chooses the member index)
+GInit == Init /\ self[P] = 1 /\ hist = <<>>
 
 \* which inclusion outcomes the real selection can produce for the ready list
 CanBeIn(nm)  == /\ Me \in ReadyNamed(nm)
